@@ -219,6 +219,11 @@ def parse_fn_block(lines):
                 else:
                     count = "+"
                 sections.append(("rw", (words[1], words[3], count), ""))
+            elif words[0] == "sigrw":
+                count = 1
+                if len(words) > 4:
+                    count = words[4] if words[4] in ("+", "?") else int(words[4])
+                sections.append(("sigrw", (words[1], words[3], count), ""))
             elif words[0] == "spec":
                 cur = ["spec", None, ""]
             elif words[0] == "loop" and not words[1].isdigit():
@@ -308,6 +313,11 @@ def gen_fn(g, header_words, block_lines):
         sig = lex(fsig)
         body = inner
         sections = [s for s in sections if not (s[0] == "rules")]
+    for kind, args, text in sections:
+        if kind == "sigrw":
+            pat, tmpl, count = args
+            sig, n = rw.rewrite(sig, pat, tmpl, count=count, what="%s sigrw" % qual)
+            g.rule_log.append((qual, "R9 signature: `%s` => `%s`" % (pat, tmpl), n))
     sig = name_return(sig)
     sigtxt = emit_trim(sig)
     sigtxt2 = re.sub(r"^pub\s*\([^)]*\)\s*", "pub ", sigtxt)
